@@ -23,6 +23,8 @@ VARIANTS = (
     ("failed-sess", cases.RICH + (("sessions:", 1), ("rc:", 3))),
     ("encrypt", cases.RICH + (("sessions:", 1), ("attrs:", ("v", 0x40)))),
     ("decrypt", cases.RICH + (("sessions:", 1), ("attrs:", ("v", 0x20)))),
+    ("encrypt-pw", cases.RICH + (("sessions:", 1), ("attrs:", ("v", 0x40)), ("val:.authorizationArea[0].sessionHandle", ("v", 0x40000009)))),
+    ("pw+encrypt", cases.RICH + (("sessions:", 2), ("attrs:.authorizationArea[1]", ("v", 0x40)), ("val:.authorizationArea[0].sessionHandle", ("v", 0x40000009)))),
     ("decrypt+encrypt", cases.RICH + (("sessions:", 2), ("attrs:", ("v", 0x60)))),
 )
 CORE = ("Startup", "GetRandom", "StirRandom", "Hash", "CreatePrimary", "NV_Read", "PCR_Read", "GetCapability", "ContextSave", "FlushContext", "Unseal", "PolicyPCR")
